@@ -30,7 +30,8 @@ EXPLANATION = (
     " (R8) psd_completion completes, for each pattern, the z block of original cone number pattern.orig_index; (R9) data updates are refused for every decomposed problem, compact or standard (C08.R1 re-run)."
     " (R10) C17.R8 re-run (Kruskal on intersection weights); (R11) compact reversal: the s and z statements of each block copy address identical positions."
     " (R12) consecutive vertex numbers follow snode_post; psd_complete gathers with the ordering and scatters with its inverse."
-    " (R13) compact augmentation of an undecomposed cone shifts the indices of b and the row indices of A by the same offset.")
+    " (R13) compact augmentation of an undecomposed cone shifts the indices of b and the row indices of A by the same offset."
+    " (R14) wherever the original cones and the sparsity patterns are walked side by side (standard and compact augmentation, dimension count) a pattern is consumed only after its orig_index was found equal to the cone's index - an undecomposed PSD cone has no pattern.")
 ASSUMPTIONS = ['rustc MIR construction and trait resolution are correct',
                'the sdp code is analysed by type-checking only (cargo check with empty blas-src/lapack-src); it is never linked or run']
 
@@ -645,6 +646,40 @@ def cone_rows_shift(rep, F, tag):
     R.guard(body)
 
 
+def pattern_owner(rep, F, tag):
+    """The sparsity patterns are stored in cone order, each with the index of the cone it decomposes (orig_index).  Whoever walks the
+    original cones and the patterns side by side may take the next pattern only for the cone whose index *is* its orig_index - a PSD cone
+    that was not decomposed (dense, or all cliques merged back) has no pattern, so `the next PSD cone' is not `the next pattern's cone'."""
+    R = rep.rule('C18.R14', 'walking cones and sparsity patterns side by side: a pattern is consumed only for the cone whose index equals its orig_index')
+
+    def body():
+        n = 0
+        for f in F.fns:
+            if 'src/solver/chordal/' not in f.file:
+                continue
+            if not any((c.callee.path or '').endswith('::peekable') or (c.callee.method == 'peekable') for c in f.calls):
+                continue
+            try:
+                leaves = Walker(f, cut_loops=True).leaves()
+            except Exception:
+                continue
+            for val, ret, ev, tr in leaves:
+                took = [str(e[2]) for e in ev if e[0] == 'call' and e[1] == 'next' and 'self.spatterns' in str(e[2]) and 'peekable' in str(e[2])]
+                if not took:
+                    continue
+                cone_it = [k for k, v in val.items() if k.startswith('discr(next(') and '@Some' not in k and 'init_cones' in k and v == 1]
+                if not cone_it:
+                    continue
+                n += 1
+                own = [k for k, v in val.items() if k.startswith('eq(') and '.orig_index' in k and '@Some.0.0' in k and v == 1]
+                R.check(bool(own), 'owner|%s%s' % (f.name, tag),
+                        '%s takes the next sparsity pattern in a pass over the original cones without having tested that its orig_index is this cone\'s '
+                        'index (path: %s): an undecomposed PSD cone ahead of a decomposed one then gets the wrong pattern' % (f.name, {k[:70]: v for k, v in val.items()}), f.loc())
+        R.check(n >= 3, 'instances' + tag, 'only %d cone/pattern walks found (standard and compact augmentation, dimension count expected)' % n)
+
+    R.guard(body)
+
+
 def run(ctx, rep, tier):
     stage_rules(ctx, rep, 'C18.R1')
     for cfg in (CONFIGS_THOROUGH if tier == 'thorough' else CONFIGS):
@@ -660,6 +695,7 @@ def run(ctx, rep, tier):
         reversal_index_agreement(rep, F, tag)
         completion_numbering(rep, F, tag)
         cone_rows_shift(rep, F, tag)
+        pattern_owner(rep, F, tag)
         # the decomposed problem is equivalent only if the merged cliques still form a clique tree (C17.R8 re-run)
         from . import c17, c04
         c17.tree_from_graph(c04._Ren(rep, 'C17.R8', 'C18.R10'), F, tag)
